@@ -521,18 +521,71 @@ pub fn check(ctx: &CheckCtx) -> Option<Found> {
     }
     ctx.col.set_sub("boundary_ids", json!(BOUNDARY_IDS));
     if t == Tier::Thorough {
-        if let Some(f) = crate::fuzz::campaign(ctx, &fuzz_subs(ctx), 1_000_000, 16) {
+        if let Some(f) = crate::fuzz::campaign(ctx, &fuzz_subs(ctx), 100_000, 16) {
             return Some(f);
         }
     }
     None
 }
 
+// byte decoders for the libFuzzer target (same domains as the strategies above)
+fn id_from(d: &mut crate::hist::fuzzgen::Dec) -> u32 {
+    match d.pickw(&[3, 2, 2, 1, 1]) {
+        0 => d.u32r(0, u32::MAX),
+        1 => d.u32r(0, 7),
+        2 => BOUNDARY_IDS[d.len(0, BOUNDARY_IDS.len() - 1)],
+        3 => 1u32 << d.u32r(0, 31),
+        _ => (1u32 << d.u32r(0, 31)).wrapping_sub(1),
+    }
+}
+
+fn u16_from(d: &mut crate::hist::fuzzgen::Dec) -> u16 {
+    match d.pickw(&[3, 1, 1]) {
+        0 => d.u16(),
+        1 => d.u32r(0, 3) as u16,
+        _ => [0u16, 1, 254, 255, 256, 257, 0x7FFF, 0x8000, 0xFFFE, 0xFFFF][d.len(0, 9)],
+    }
+}
+
+fn triple_from_bytes(data: &[u8]) -> Case {
+    let mut d = crate::hist::fuzzgen::Dec::new(data);
+    let a = (id_from(&mut d), u16_from(&mut d), u16_from(&mut d));
+    let b = (id_from(&mut d), u16_from(&mut d), u16_from(&mut d));
+    let raw = ((d.u32r(0, u32::MAX) as u64) << 32) | d.u32r(0, u32::MAX) as u64;
+    let b = match d.u8r(0, 7) {
+        0 => (a.0, a.1, b.2),
+        1 => (a.0, b.1, a.2),
+        2 => (b.0, a.1, a.2),
+        3 => (a.0, a.1, a.2.wrapping_add(1)),
+        4 => (a.0, a.1.wrapping_add(1), a.2),
+        5 => (a.0.wrapping_add(1), a.1, a.2),
+        _ => b,
+    };
+    Case::Triple { a, b, raw }
+}
+
+fn factory_from_bytes(data: &[u8]) -> Case {
+    let mut d = crate::hist::fuzzgen::Dec::new(data);
+    let id = id_from(&mut d);
+    let ver = u16_from(&mut d);
+    let start_sub = u16_from(&mut d);
+    let n = if d.pickw(&[4, 1]) == 0 { d.u32r(1, 39) } else { [255u32, 256, 257, 1000][d.len(0, 3)] };
+    Case::Factory { id, ver, start_sub, n }
+}
+
+fn loop_from_bytes(data: &[u8]) -> Case {
+    let mut d = crate::hist::fuzzgen::Dec::new(data);
+    let pre_slots = d.u8r(0, 3);
+    let reuses = if d.pickw(&[4, 1]) == 0 { d.u32r(0, 5) } else { [255u32, 256, 257][d.len(0, 2)] };
+    let subs = d.u8r(1, 4);
+    Case::Loop { pre_slots, reuses, subs }
+}
+
 pub fn fuzz_subs(_ctx: &CheckCtx) -> Vec<crate::fuzz::FuzzSub> {
     vec![
-        crate::fuzz::sub("triple", triple_case(), run_case),
-        crate::fuzz::sub("factory", factory_case(), run_case),
-        crate::fuzz::sub("loop", loop_case(), run_case),
+        crate::fuzz::sub("triple", triple_from_bytes, run_case),
+        crate::fuzz::sub("factory", factory_from_bytes, run_case),
+        crate::fuzz::sub("loop", loop_from_bytes, run_case),
     ]
 }
 
